@@ -126,6 +126,34 @@ func TestC02(t *testing.T) {
 			}
 			c.Ev.MarkExhaustive(fmt.Sprintf("every unary operator x every one of %d operand producers", len(c02Producers)))
 		})
+		c.Sub("self-update-shapes", func(s *Sub) {
+			// the same operators in the statement shapes `v = v op k`, `v = k op v`, updates of elements and properties,
+			// inside loops and functions: an operator must compute the same result wherever it stands
+			var k int64
+			shapes := []string{
+				bn.KwVar + " v = %[1]s;\nv = v %[2]s %[3]s;\n" + bn.KwPrint + " v;\n",
+				bn.KwVar + " v = %[1]s;\nv = %[3]s %[2]s v;\n" + bn.KwPrint + " v;\n",
+				bn.KwVar + " v = %[1]s;\n" + bn.KwFor + " (" + bn.KwVar + " i = 0; i < 2; i = i + 1) v = v %[2]s %[3]s;\n" + bn.KwPrint + " v;\n",
+				bn.KwVar + " box = [%[1]s];\nbox[0] = box[0] %[2]s %[3]s;\n" + bn.KwPrint + " box[0];\n",
+				bn.KwVar + " rec = {p: %[1]s};\nrec.p = rec.p %[2]s %[3]s;\n" + bn.KwPrint + " rec.p;\n",
+				bn.KwFun + " step(v) { v = v %[2]s %[3]s; " + bn.KwReturn + " v; }\n" + bn.KwPrint + " step(%[1]s);\n",
+			}
+			ks := []string{"1", "0", "2", "\"1\"", "0.5"}
+			for _, op := range bn.BinOpList {
+				for _, p := range c02Producers {
+					for si, sh := range shapes {
+						for _, kv := range ks {
+							k++
+							if !c.Mine(k) || (!c.Thorough && (int(k)+si)%3 != 0) {
+								continue
+							}
+							src := c02Prelude + fmt.Sprintf(sh, p.text, op, kv)
+							c.c02Program(s, "self-update-shapes", src, true, true, "self-update")
+						}
+					}
+				}
+			}
+		})
 		c.Sub("equality-laws", func(s *Sub) {
 			var k int64
 			for i, l := range c02Producers {
